@@ -92,8 +92,32 @@ fn repr<const N: usize>(lo: isize, hi: isize) {
     core::mem::forget(d);
 }
 
-// Every arc-weighted digraph on 3 vertices, weights -4..=8, no negative circuit (assumed via the oracle).
+// Every arc-weighted digraph on 2 vertices, weights -4..=8.
 // @verif prop=C08 tier=quick fl=f2 role=dense/array t=1200 mem=14
+#[cfg_attr(kani, kani::proof)]
+#[cfg_attr(kani, kani::unwind(6))]
+pub fn c08_dense_n2() {
+    dense::<2>(-4, 8);
+}
+
+// Every arc-weighted digraph on 3 vertices, weights -1..=2, no negative circuit.
+// @verif prop=C08 tier=quick fl=f2 role=dense/array t=1800 mem=16
+#[cfg_attr(kani, kani::proof)]
+#[cfg_attr(kani, kani::unwind(11))]
+pub fn c08_dense_n3_w2() {
+    dense::<3>(-1, 2);
+}
+
+// Through AdjacencyListWeighted<isize> (map model), 2 vertices.
+// @verif prop=C08 tier=quick fl=f2 feat=map4 role=dense/repr t=1500 mem=16
+#[cfg_attr(kani, kani::proof)]
+#[cfg_attr(kani, kani::unwind(8))]
+pub fn c08_repr_n2() {
+    repr::<2>(-4, 8);
+}
+
+// Every arc-weighted digraph on 3 vertices, weights -4..=8, no negative circuit (assumed via the oracle).
+// @verif prop=C08 tier=thorough fl=f2 role=dense/array t=3600 mem=24
 #[cfg_attr(kani, kani::proof)]
 #[cfg_attr(kani, kani::unwind(11))]
 pub fn c08_dense_n3() {
@@ -101,7 +125,7 @@ pub fn c08_dense_n3() {
 }
 
 // Through AdjacencyListWeighted<isize> (map model), 3 vertices.
-// @verif prop=C08 tier=quick fl=f2 feat=map4 role=dense/repr t=1200 mem=14
+// @verif prop=C08 tier=thorough fl=f2 feat=map4 role=dense/repr t=3600 mem=30
 #[cfg_attr(kani, kani::proof)]
 #[cfg_attr(kani, kani::unwind(11))]
 pub fn c08_repr_n3() {
